@@ -61,8 +61,10 @@ func GenScript(r *lib.Rand, o ScriptOpts) *ast.Chain {
 			}
 		}
 		c.Statements = append(c.Statements, ast.Statement{Name: ast.Identifier(name), Expr: e})
-		if vals, _, rej := Interp(c); rej == "" {
-			length = len(vals)
+		if !o.BigNumbers {
+			if vals, _, rej := Interp(c); rej == "" {
+				length = len(vals)
+			}
 		}
 		if name != "" && !used[name] {
 			used[name] = true
